@@ -56,8 +56,8 @@ def gen_case(rng):
                 mtx[i][0] += 0.125 * (i + 1)
     drop = rng.choice([None, None, None, "every", "later"])
     return {"matrix": mtx, "objectives": gen.objectives(rng, m), "weights": gen.weights(rng, m, "dyadic"),
-            "alternatives": gen.labels(rng, n, gen.LABEL_POOL_A, "A"),
-            "criteria": gen.labels(rng, m, gen.LABEL_POOL_C, "C"),
+            "alternatives": gen.labels(rng, n, gen.LABEL_POOL_A, "A", kinds=False),
+            "criteria": gen.labels(rng, m, gen.LABEL_POOL_C, "C", kinds=False),
             "dmaker": rng.choice(["topsis", "ratio", "refpoint"]),
             "repeat": rng.randint(1, 3), "strategy": rng.choice(["median", "mean", "max", "min"]),
             "seed": rng.choice([0, rng.randint(0, 10 ** 6), rng.randint(0, 10 ** 6), rng.randint(0, 10 ** 6), 2 ** 32 - 1]), "drop": drop, "allow_missing": rng.random() < 0.7}
